@@ -111,7 +111,7 @@ class Dev:
 class FFSyncDev(Dev):
     """din --(idom register)--> i --FFSynchronizer--> o"""
 
-    def __init__(self, width, signed, stages, init, reset_less, neg=(False, False), oshape=None, platform=None):
+    def __init__(self, width, signed, stages, init, reset_less, neg=(False, False), oshape=None, platform=None, per_bit=False):
         from amaranth.hdl import Module, Signal, ClockDomain, Shape
         from amaranth.lib.cdc import FFSynchronizer
         oshape = tuple(oshape) if oshape is not None else (width, signed)      # the output may be wider / narrower
@@ -129,7 +129,15 @@ class FFSyncDev(Dev):
         self.i = Signal(sh)
         self.o = Signal(Shape(*oshape))
         m.d.idom += self.i.eq(self.din)
-        m.submodules.dut = FFSynchronizer(self.i, self.o, o_domain="odom", init=init, reset_less=reset_less, stages=stages)
+        per_bit = bool(per_bit and width >= 2 and oshape == (width, signed))
+        self.cfg["one_synchronizer_per_bit"] = per_bit
+        if per_bit:
+            # a bank of one-bit synchronisers writing the bits of one output signal (they change in the same instant)
+            for k in range(width):
+                m.submodules[f"dut{k}"] = FFSynchronizer(self.i[k], self.o[k], o_domain="odom", init=(norm(init, width, False) >> k) & 1,
+                                                         reset_less=reset_less, stages=stages)
+        else:
+            m.submodules.dut = FFSynchronizer(self.i, self.o, o_domain="odom", init=init, reset_less=reset_less, stages=stages)
         self.m = m
         self.init = norm(init, width, signed)
         self.reset_less = reset_less
@@ -483,7 +491,7 @@ def random_dev(rng):
             if oshape[0] == 0:
                 oshape = (0, False)
         return FFSyncDev(width, signed, stages, init, rng.random() < 0.7, neg=neg, oshape=oshape,
-                         platform="xilinx" if rng.random() < 0.3 else None)
+                         platform="xilinx" if rng.random() < 0.3 else None, per_bit=rng.random() < 0.3)
     if k < 0.55:
         return AsyncFFDev("AsyncFFSynchronizer", stages, rng.choice(["pos", "neg"]), neg=neg)
     if k < 0.75:
@@ -564,7 +572,7 @@ def replay(rec):
     print(json.dumps(cfg), rec.get("mechanism"))
     if cfg.get("kind") == "FFSynchronizer":
         dev = FFSyncDev(cfg["width"], cfg["signed"], cfg["stages"], cfg["init"], cfg["reset_less"], neg=cfg.get("negedge", (False, False)),
-                        oshape=cfg.get("oshape"), platform=cfg.get("platform")).build()
+                        oshape=cfg.get("oshape"), platform=cfg.get("platform"), per_bit=cfg.get("one_synchronizer_per_bit", False)).build()
     elif cfg.get("kind") in ("AsyncFFSynchronizer", "ResetSynchronizer"):
         dev = AsyncFFDev(cfg["kind"], cfg["stages"], cfg["async_edge"], cfg["async_reset_domain"], neg=cfg.get("negedge", (False, False))).build()
     else:
